@@ -248,6 +248,8 @@ def logmatmulexp_contract(ctx):
     SUMK = z3.Function("sum_over_k", R, R)  # applied to the summand written with the bound index k: modelled per syntactic summand
 
     def amax(m, axis, keepdims=False):
+        if not keepdims:
+            raise Untranslatable("amax without keepdims: the shift no longer broadcasts along the reduced axis (not covered by this contract)")
         if m.role == "x" and axis == -1:
             return Vecm(XS(i))
         if m.role == "y" and axis == -2:
